@@ -5,8 +5,14 @@ package main
 import (
 	"context"
 	"fmt"
+	"github.com/cloudflare/pint/internal/discovery"
+	"github.com/cloudflare/pint/internal/git"
+	"github.com/cloudflare/pint/verifharness/lib/pintbin"
+	"os"
+	"path/filepath"
 	"regexp"
 	"strings"
+	"time"
 
 	"github.com/prometheus/common/model"
 	"github.com/prometheus/prometheus/model/rulefmt"
@@ -52,6 +58,10 @@ func sigOf(msg string) string {
 // decide runs both acceptors on the same bytes under the same name-validation scheme.
 func decide(content []byte, names model.ValidationScheme, cs *explore.Case) {
 	entries, crash := pipeline.Parse("rules.yml", content, true, parser.PrometheusSchema, names)
+	decideEntries(entries, crash, content, names, cs)
+}
+
+func decideEntries(entries []discovery.Entry, crash *pipeline.Crash, content []byte, names model.ValidationScheme, cs *explore.Case) {
 	pintOK := true
 	worst := ""
 	if crash != nil {
@@ -118,6 +128,62 @@ func semantic(names model.ValidationScheme) explore.Body {
 		decide([]byte(d.Text), names, cs)
 		return cs
 	}
+}
+
+// relint: the same path is linted twice in one process through the real GlobFinder (what `pint watch` does): first
+// with a valid document, then with a generated one of exactly the same size written with the same modification
+// time (rsync -t, cp -p, an edit within one timestamp tick). The verdict on the second content must be about the
+// second content.
+var relintDir string
+
+func relint(c *explore.Chooser) *explore.Case {
+	if relintDir == "" {
+		relintDir = pintbin.Scratch("c01-relint")
+	}
+	valid := rulegen.Semantic(explore.NewReplay(nil, false))
+	d := rulegen.Semantic(c)
+	if len(d.Deviations) == 0 {
+		return &explore.Case{Skip: true}
+	}
+	pad := func(s string, n int) string {
+		if !strings.HasSuffix(s, "\n") {
+			s += "\n"
+		}
+		return s + "#" + strings.Repeat("p", n-len(s)-2) + "\n"
+	}
+	n := max(len(valid.Text), len(d.Text)) + 4
+	a, b := pad(valid.Text, n), pad(d.Text, n)
+	cs := &explore.Case{Input: map[string]any{"deviations": d.Deviations, "first_content": a, "file": b, "names": "utf8"}, Key: b}
+	if len(a) != len(b) {
+		panic("padding failed")
+	}
+	path := filepath.Join(relintDir, "rules.yml")
+	stamp := time.Unix(1700000000, 0)
+	find := func(content string) ([]discovery.Entry, *pipeline.Crash) {
+		if err := os.WriteFile(path, []byte(content), 0o644); err != nil {
+			panic(err)
+		}
+		os.Chtimes(path, stamp, stamp)
+		var entries []discovery.Entry
+		var crash *pipeline.Crash
+		func() {
+			defer func() {
+				if p := recover(); p != nil {
+					crash = &pipeline.Crash{Site: "find", Value: fmt.Sprint(p)}
+				}
+			}()
+			var err error
+			entries, err = discovery.NewGlobFinder([]string{path}, git.NewPathFilter(nil, nil, nil), parser.PrometheusSchema, model.UTF8Validation, nil).Find()
+			if err != nil {
+				panic(err)
+			}
+		}()
+		return entries, crash
+	}
+	find(a)
+	entries, crash := find(b)
+	decideEntries(entries, crash, []byte(b), model.UTF8Validation, cs)
+	return cs
 }
 
 // bases for the mutation space: valid documents covering every field
@@ -226,6 +292,7 @@ func main() {
 	spaces := []*explore.Space{
 		{Name: "semantic-utf8", Body: semantic(model.UTF8Validation), Bound: semBound, Setup: setup},
 		{Name: "semantic-legacy", Body: semantic(model.LegacyValidation), Bound: semBound, Setup: setup},
+		{Name: "relint-same-size-same-mtime", Body: relint, Bound: func(string) int { return 1 }, Setup: setup},
 		{Name: "mutate-utf8", Body: mutateBody(model.UTF8Validation, false), Bound: unb, Setup: setup},
 		{Name: "mutate-legacy", Body: mutateBody(model.LegacyValidation, false), Bound: unb, Setup: setup},
 		{Name: "mutate-line-pairs-utf8", Body: mutateBody(model.UTF8Validation, true), Bound: unb, Setup: setup},
@@ -253,4 +320,3 @@ func main() {
 		},
 	})
 }
-
